@@ -1129,6 +1129,8 @@ class ServiceInstance:
         self._task.cancel()
         asyncio.create_task(wait_cancelled(self._task))
         self._task = None
+        # stop answering FindService at once, not only when the task sees the cancellation
+        self._can_answer_offers = False
 
         # cyclic tasks send stop when they are cancelled
         if not self.timings.CYCLIC_OFFER_DELAY:
@@ -1181,6 +1183,12 @@ class ServiceInstance:
             self.timings.ANNOUNCE_TTL if not stop else 0
         )
         self.announcer.queue_send(entry, remote=remote)
+
+    def _answer_find(self, remote: _T_SOCKADDR) -> None:
+        # the answer may have been delayed: by now the instance may be stopped
+        if self._task is None or not self._can_answer_offers:
+            return
+        self._send_offer(remote)
 
     def matches_find(
         self, entry: someip.header.SOMEIPSDEntry, addr: _T_SOCKADDR
@@ -1389,7 +1397,7 @@ class ServiceAnnouncer:
                 asyncio.get_event_loop().call_soon(func, addr)
 
         for instance in matching_instances:
-            call(instance._send_offer)
+            call(instance._answer_find)
 
     def start(self, loop=None):
         for instance in self.announcing_services:
